@@ -543,8 +543,12 @@ func (pa *path) doDescribe(req defs.PathDescribeReq) {
 	}
 
 	if pa.conf.HasOnDemandPublisher() {
-		if pa.onDemandPublisherState == pathOnDemandStateInitial {
+		switch pa.onDemandPublisherState {
+		case pathOnDemandStateInitial:
 			pa.onDemandPublisherStart(req.AccessRequest.Query)
+
+		case pathOnDemandStateReady, pathOnDemandStateClosing:
+			pa.onDemandPublisherWaitAgain()
 		}
 		pa.describeRequestsOnHold = append(pa.describeRequestsOnHold, req)
 		return
@@ -642,8 +646,12 @@ func (pa *path) doAddReader(req defs.PathAddReaderReq) {
 	}
 
 	if pa.conf.HasOnDemandPublisher() {
-		if pa.onDemandPublisherState == pathOnDemandStateInitial {
+		switch pa.onDemandPublisherState {
+		case pathOnDemandStateInitial:
 			pa.onDemandPublisherStart(req.AccessRequest.Query)
+
+		case pathOnDemandStateReady, pathOnDemandStateClosing:
+			pa.onDemandPublisherWaitAgain()
 		}
 		pa.readerAddRequestsOnHold = append(pa.readerAddRequestsOnHold, req)
 		return
@@ -843,6 +851,22 @@ func (pa *path) onDemandPublisherStart(query string) {
 		ExternalCmdEnv:  pa.ExternalCmdEnv(),
 		Query:           query,
 	})
+
+	pa.onDemandPublisherReadyTimer.Stop()
+	pa.onDemandPublisherReadyTimer = time.NewTimer(time.Duration(pa.conf.RunOnDemandStartTimeout))
+
+	pa.onDemandPublisherState = pathOnDemandStateWaitingReady
+}
+
+// onDemandPublisherWaitAgain is called when a request arrives while the
+// on-demand command is running but its publisher has left.
+// The request is held like the first one, under a new start timeout,
+// otherwise nothing would ever answer it.
+func (pa *path) onDemandPublisherWaitAgain() {
+	if pa.onDemandPublisherState == pathOnDemandStateClosing {
+		pa.onDemandPublisherCloseTimer.Stop()
+		pa.onDemandPublisherCloseTimer = emptyTimer()
+	}
 
 	pa.onDemandPublisherReadyTimer.Stop()
 	pa.onDemandPublisherReadyTimer = time.NewTimer(time.Duration(pa.conf.RunOnDemandStartTimeout))
